@@ -91,10 +91,13 @@ where
 {
   fn next(&mut self, value: Item) {
     if self.edge.leading || self.edge.tailing {
-      if self.edge.tailing {
+      let opens_window = self.task_handler.is_closed();
+      // an item delivered on the leading edge is not a candidate for the
+      // trailing edge as well
+      if self.edge.tailing && !(opens_window && self.edge.leading) {
         *self.trailing_value.rc_deref_mut() = Some(value.clone());
       }
-      if self.task_handler.is_closed() {
+      if opens_window {
         let delay = (self.duration_selector)(&value);
         if self.edge.leading {
           self.observer.next(value)
